@@ -61,6 +61,7 @@ def mk_path(s):
 class Ledger:
     def __init__(self):
         self.dirs = {}       # path → {"by": "scrut" | "user", "kept": bool}
+        self.links = {}      # symbolic links: path → target path
         self.counter = 0
         self.log = []
 
@@ -120,7 +121,8 @@ class EnvModels(c20.RunModels):
             return ok(UNIT)
         ins(r"(?:std::fs::)?create_dir::<.*>|(?:std::fs::)?create_dir_all::<.*>", create_dir)
         ins(PT + r"Path::exists", lambda c, m, a: SBool(led(c).exists(pstr(a[0]))))
-        ins(r"(?:dunce::)?(?:canonicalize|realpath)::<.*>", lambda c, m, a: ok(mk_pathbuf(pstr(a[0]))))
+        # canonicalize resolves symbolic links (the ledger's `links`); everything else is canonical already
+        ins(r"(?:dunce::)?(?:canonicalize|realpath)::<.*>", lambda c, m, a: ok(mk_pathbuf(led(c).links.get(pstr(a[0]), pstr(a[0])))))
         ins(r"current_dir|std::env::current_dir", lambda c, m, a: ok(mk_pathbuf("/cwd")))
         ins(r"environment::canonical_shell|canonical_shell", lambda c, m, a: ok(mk_pathbuf("/bin/bash")), defs=r"(?:^|::)canonical_shell$")
 
@@ -294,7 +296,12 @@ def mk_setup(keep, user_dir, docs, same_names):
         ctx.notes["flags"] = (keep, user_dir)
         # real paths for the documents (identical file names in different directories when asked for)
         for d, doc in enumerate(ctx.notes["documents"]):
-            path = ("/docs/d%d/test.md" % d) if same_names else ("/docs/doc%d.md" % d)
+            path = ("/docs/d%d/test.md" % d) if same_names is True else ("/docs/doc%d.md" % d)
+            if same_names == "symlink":
+                # the document is given by a symbolic link to a file of another name in another directory
+                path = "/docs/link%d.md" % d
+                L.links[path] = "/shared/real%d.md" % d
+                L.create("/shared", by="user")
             doc.fields[STRUCTS["ParsedTestFile"].index("path")] = mk_pathbuf(path)
             dcfg = field_of(doc, "config")
             pre = dcfg.fields[STRUCTS["DocumentConfig"].index("prepend")]
@@ -381,6 +388,8 @@ def configs(max_total, two_docs):
                     continue          # the real init_test_file runs here (over the ledger): it does not fail
                 out.append((keep, user_dir, [Doc(0, n, 0, 0, kind, detail)], False))
         if two_docs:
+            for k1, d1 in c20.REPRESENTATIVE(1):
+                out.append((keep, user_dir, [Doc(0, 1, 0, 0, k1, d1)], "symlink"))
             for same in (False, True):
                 for (k1, d1), (k2, d2) in itertools.product(c20.REPRESENTATIVE(1), repeat=2):
                     out.append((keep, user_dir, [Doc(0, 1, 0, 0, k1, d1), Doc(1, 1, 0, 0, k2, d2)], same))
@@ -397,7 +406,7 @@ def h_env(max_total):
                                "documented variables set with TMPDIR/TESTFILE/TESTDIR/TESTSHELL right; at return nothing scrut created is left unless "
                                "--keep-temporary-directories, a given --work-directory stays",
                       bound="1 document with 1..%d test cases (every executor result shape over exit code / detached), 2 and 3 documents with one test "
-                            "case (representative results, also identical file names in different directories); plain / --work-directory / "
+                            "case (representative results, also identical file names in different directories, a document given by a symbolic link); plain / --work-directory / "
                             "--keep-temporary-directories; validation verdicts free" % max_total)
 
 
